@@ -74,3 +74,73 @@ Theorem c02_multiplier_recip_rounded : forall u, 0 <= u -> forall a p t r l,
   0 < t -> p <> 0 -> t * Rabs a <= Rabs p -> fl_eq u (/ p) r -> fl_eq u (a * r) l -> Rabs l <= / t * ((1 + u) * (1 + u)).
 Proof. exact multiplier_recip. Qed.
 Print Assumptions c02_multiplier_recip_rounded.
+
+(* ---- the model is what the source says now ---- *)
+From SLU Require Import Consts ArgCheckModel PivotGen PivotTie.
+Local Open Scope Z_scope.
+
+(* The pivot search and pivot policy of p?gstrf_pivotL, RE-TRANSLATED from the current C source on every run (PivotGen.v, all
+   four precisions: src_pivotL p), compute the model's pivotL: c is the candidate list placed at offset nsupc of the supernode,
+   row i = lsub_ptr[i], mag i = the magnitude compared for lu_col_ptr[i], usepr = *usepr on entry (YES or NO), oldrow =
+   inv_perm_r[jcol], diagind = inv_perm_c[jcol], thr = the value of u * pivmax.  The result lists (returned early, value
+   returned, pivptr, *pivrow, *usepr); encres maps the model's result to it (pivptr = nsupc + pr_ptr, YES/NO for pr_usepr,
+   jcol + 1 returned exactly in the singular case). *)
+Theorem c02_source_pivot_is_model : forall p jcol nsupc nsupr usepr pivrow0 oldrow diagind row mag thr (c : list (Z * Z)),
+  0 <= nsupc -> nsupr = nsupc + Z.of_nat (length c) -> usepr = c_YES \/ usepr = c_NO ->
+  (forall k, (k < length c)%nat -> row (nsupc + Z.of_nat k) = row_at c k) ->
+  (forall k, (k < length c)%nat -> mag (nsupc + Z.of_nat k) = mag_at c k) ->
+  src_pivotL p jcol nsupc nsupr usepr pivrow0 oldrow diagind row mag thr
+  = encres jcol nsupc (pivotL c (Z.eqb usepr c_YES) oldrow diagind thr).
+Proof. exact src_pivot_is_model. Qed.
+Print Assumptions c02_source_pivot_is_model.
+
+(* ... field by field *)
+Theorem c02_source_pivot_fields : forall p jcol nsupc nsupr usepr pivrow0 oldrow diagind row mag thr (c : list (Z * Z)),
+  0 <= nsupc -> nsupr = nsupc + Z.of_nat (length c) -> usepr = c_YES \/ usepr = c_NO ->
+  (forall k, (k < length c)%nat -> row (nsupc + Z.of_nat k) = row_at c k) ->
+  (forall k, (k < length c)%nat -> mag (nsupc + Z.of_nat k) = mag_at c k) ->
+  let g := src_pivotL p jcol nsupc nsupr usepr pivrow0 oldrow diagind row mag thr in
+  let r := pivotL c (Z.eqb usepr c_YES) oldrow diagind thr in
+  res_returned g = pr_singular r /\
+  res_info g = (if pr_singular r then jcol + 1 else 0) /\
+  res_ptr g = nsupc + Z.of_nat (pr_ptr r) /\
+  res_row g = pr_row r /\
+  res_usepr g = (if pr_usepr r then c_YES else c_NO).
+Proof. exact src_pivot_fields. Qed.
+Print Assumptions c02_source_pivot_fields.
+
+(* c02_singular_iff_all_zero for the source: the early return is taken exactly when all candidates are exactly zero, and it
+   returns jcol + 1 *)
+Theorem c02_source_singular_iff_all_zero : forall p jcol nsupc nsupr usepr pivrow0 oldrow diagind row mag thr (c : list (Z * Z)),
+  0 <= nsupc -> nsupr = nsupc + Z.of_nat (length c) -> usepr = c_YES \/ usepr = c_NO ->
+  (forall k, (k < length c)%nat -> row (nsupc + Z.of_nat k) = row_at c k) ->
+  (forall k, (k < length c)%nat -> mag (nsupc + Z.of_nat k) = mag_at c k) ->
+  let g := src_pivotL p jcol nsupc nsupr usepr pivrow0 oldrow diagind row mag thr in
+  (res_returned g = true <-> maxmag c = 0) /\ (res_returned g = true -> res_info g = jcol + 1) /\ (res_returned g = false -> res_info g = 0).
+Proof. exact src_singular_iff_all_zero. Qed.
+Print Assumptions c02_source_singular_iff_all_zero.
+
+(* c02_pivot_threshold for the source: the subscript the code leaves in pivptr is inside the column, its magnitude is nonzero
+   and meets the threshold *)
+Theorem c02_source_pivot_threshold : forall p jcol nsupc nsupr usepr pivrow0 oldrow diagind row mag thr (c : list (Z * Z)),
+  0 <= nsupc -> nsupr = nsupc + Z.of_nat (length c) -> usepr = c_YES \/ usepr = c_NO ->
+  (forall k, (k < length c)%nat -> row (nsupc + Z.of_nat k) = row_at c k) ->
+  (forall k, (k < length c)%nat -> mag (nsupc + Z.of_nat k) = mag_at c k) ->
+  PivotProofs.nonneg c -> thr <= maxmag c ->
+  let g := src_pivotL p jcol nsupc nsupr usepr pivrow0 oldrow diagind row mag thr in
+  res_returned g = false ->
+  nsupc <= res_ptr g < nsupr /\ thr <= mag (res_ptr g) /\ 0 < mag (res_ptr g).
+Proof. exact src_pivot_threshold. Qed.
+Print Assumptions c02_source_pivot_threshold.
+
+(* c02_multiplier_bound for the source: every entry of the column is at most 1/u times the entry at pivptr *)
+Theorem c02_source_multiplier_bound : forall p jcol nsupc nsupr usepr pivrow0 oldrow diagind row mag thr (c : list (Z * Z)),
+  0 <= nsupc -> nsupr = nsupc + Z.of_nat (length c) -> usepr = c_YES \/ usepr = c_NO ->
+  (forall k, (k < length c)%nat -> row (nsupc + Z.of_nat k) = row_at c k) ->
+  (forall k, (k < length c)%nat -> mag (nsupc + Z.of_nat k) = mag_at c k) ->
+  PivotProofs.nonneg c -> forall un ud, 0 < un -> 0 < ud -> thr * ud = un * maxmag c -> un <= ud ->
+  let g := src_pivotL p jcol nsupc nsupr usepr pivrow0 oldrow diagind row mag thr in
+  res_returned g = false ->
+  forall i, nsupc <= i < nsupr -> un * mag i <= ud * mag (res_ptr g).
+Proof. exact src_multiplier_bound. Qed.
+Print Assumptions c02_source_multiplier_bound.
